@@ -121,7 +121,7 @@ def parseItem (j : Json) : R Item := do
     pure (.op (.replaceValues kvs))
   | "setValues" => do
     pure (.op (.setValues (← parseOperand (← obj j "v")) (← (← arr j "alts").toList.mapM (·.getStr?))))
-  | "setStrict" => do pure (.op (.setStrict (← bool j "b")))
+  | "setStrict" => do pure (.op (.setStrict (← bool j "b") (← (← arr j "alts").toList.mapM (·.getStr?))))
   | "badKey" => do pure (.op (.badKey (← bool j "tuple")))
   | "getItem" => do pure (.getItem (← str j "name"))
   | "getAttr" => do pure (.getAttr (← str j "name"))
@@ -185,7 +185,8 @@ def readStr : ReadResult → String
 def runItems : Store → List Item → List String → List String
   | _, [], acc => acc.reverse
   | s, .op o :: rest, acc =>
-    runItems (step s o).1 rest ((outcomeStr (step s o).2 ++ "|" ++ stateStr (step s o).1) :: acc)
+    runItems (step Cfg.current s o).1 rest
+      ((outcomeStr (step Cfg.current s o).2 ++ "|" ++ stateStr (step Cfg.current s o).1) :: acc)
   | s, .getItem n :: rest, acc => runItems s rest (readStr (getItem s n) :: acc)
   | s, .getAttr n :: rest, acc => runItems s rest (readStr (getAttr s n) :: acc)
   | s, .getPos n i :: rest, acc => runItems s rest (readStr (getPos s n i) :: acc)
